@@ -571,10 +571,20 @@ func checkCli(c CliCase) error {
 func TestC08Cli(t *testing.T) {
 	h.Run(t, h.Spec[CliCase]{
 		Property: "C08", Name: "cli", Quick: 1600, Thorough: 32000, Timeout: 90e9,
-		Rule: "the same related tree pairs (1-5 compared trees) through `gotree compare trees` in its four output modes (count table, --binary, --rf, --weighted), with and without -l, with 1-8 threads: every printed column is recomputed from the reference split sets (counts exactly; weighted RF and KF to the 7 printed digits); identifiers must be those of the file, --rf lines must be in file order; in one case in five one compared tree is on other taxa or is not a tree: the command must end with a non-zero status in every mode; non-trivial = >= 2 compared trees",
+		Rule: "the same related tree pairs (1-5 compared trees, one case in six 40-300 compared trees with 2-16 threads) through `gotree compare trees` in its four output modes (count table, --binary, --rf, --weighted), with and without -l, with 1-8 threads: every printed column is recomputed from the reference split sets (counts exactly; weighted RF and KF to the 7 printed digits); identifiers must be those of the file, --rf lines must be in file order; in one case in five one compared tree is on other taxa or is not a tree: the command must end with a non-zero status in every mode; non-trivial = >= 2 compared trees",
 		Gen: func(t *rapid.T, thorough bool) CliCase {
 			b := genCase(t, false)
 			c := CliCase{Ref: b.Ref, Comps: b.Comps, Tips: b.Tips, Mode: rapid.SampledFrom([]string{"table", "binary", "rf", "weighted"}).Draw(t, "mode"), Threads: rapid.SampledFrom([]int{1, 1, 2, 4, 8}).Draw(t, "threads")}
+			if rapid.IntRange(0, 5).Draw(t, "long") == 3 {
+				// a long file of compared trees (results complete out of order with several threads)
+				n := rapid.IntRange(40, 300).Draw(t, "nlong")
+				base := c.Comps
+				c.Comps = nil
+				for i := 0; i < n; i++ {
+					c.Comps = append(c.Comps, base[rapid.IntRange(0, len(base)-1).Draw(t, "pickcomp")])
+				}
+				c.Threads = rapid.SampledFrom([]int{2, 3, 4, 8, 16}).Draw(t, "threadslong")
+			}
 			if rapid.IntRange(0, 4).Draw(t, "hasbad") == 2 {
 				c.Bad = rapid.SampledFrom([]string{"mismatch", "broken"}).Draw(t, "bad")
 				c.BadPos = rapid.IntRange(0, 20).Draw(t, "badpos")
